@@ -32,25 +32,35 @@ type entry struct {
 }
 
 type Machine struct {
-	w       *bufio.Writer
-	nextID  int
-	handles map[any]hinfo
-	live    []*entry
-	byID    map[int]*entry
-	Lines   int
-	stats   *Stats
-	caseID  int
-	byTok   map[string]any
+	w        *bufio.Writer
+	nextID   int
+	handles  map[any]hinfo
+	live     []*entry
+	byID     map[int]*entry
+	Lines    int
+	stats    *Stats
+	caseID   int
+	byTok    map[string]any
+	OnlyCase int
+	OnlyLine int
 }
 
 func NewMachine(w *bufio.Writer, st *Stats) *Machine {
 	return &Machine{w: w, stats: st, handles: map[any]hinfo{}, byID: map[int]*entry{}, byTok: map[string]any{}}
 }
 
+// emit writes one record. In replay mode (OnlyCase / OnlyLine set) the whole run is re-executed with
+// the same seed, so every random choice is the same, but only the selected case / record is written.
 func (m *Machine) emit(line string) {
+	m.Lines++
+	if m.OnlyCase > 0 && m.caseID != m.OnlyCase {
+		return
+	}
+	if m.OnlyLine > 0 && m.Lines != m.OnlyLine {
+		return
+	}
 	m.w.WriteString(line)
 	m.w.WriteByte('\n')
-	m.Lines++
 }
 
 // Case starts a new case: heap and handle table are reset on both sides.
